@@ -7,6 +7,7 @@ MODULES = [
     ('src/volatile_memory.rs', 'verif_kani_vs', 'vs.rs'),
     ('src/volatile_memory.rs', 'verif_kani_c06', 'c06.rs'),
     ('src/bitmap/backend/atomic_bitmap.rs', 'verif_kani_c08', 'c08.rs'),
+    ('src/io.rs', 'verif_kani_io', 'io.rs'),
 ]
 
 _ADDR_CTX = [r'macro_rules!\s+impl_address_ops', r'\(\$T:ident, \$V:ty\)\s*=>', r'impl Address for \$T']
@@ -44,7 +45,52 @@ CONTRACTS = [
 ]
 
 # O3: FFI redirection (Kani can neither run nor stub foreign functions)
-FFI = {}
+FFI = {
+    'src/io.rs': [(r'\blibc::read\(', 'crate::verif_ffi::read('), (r'\blibc::write\(', 'crate::verif_ffi::write('),
+                  (r'std::io::Error::last_os_error\(\)', 'crate::verif_ffi::last_os_error()'),
+                  # O3b: io::Error::new(kind, "msg") boxes a String (38 GB / 10 min in CBMC, Kani cannot stub
+                  # inherent methods of io::Error): the scratch copy builds the same kind without the message
+                  (r'std::io::Error::new\(', 'crate::verif_ffi::io_error_new(')],
+}
 
 # O4: appended #[cfg(kani)] helper items
-APPEND = {}
+APPEND = {
+    'src/lib.rs': '''
+/// O3: logging models of the libc functions the crate calls (Kani can neither execute nor stub foreign
+/// functions).  Each records its arguments and returns an arbitrary result the real call could return.
+#[cfg(kani)]
+#[allow(dead_code, static_mut_refs)]
+pub mod verif_ffi {
+    pub static mut READ_CALLS: usize = 0;
+    pub static mut WRITE_CALLS: usize = 0;
+    pub static mut LAST: (i32, usize, usize) = (0, 0, 0);
+    pub static mut LAST_RET: isize = 0;
+    /// read(2): returns -1, or k <= count after storing k arbitrary bytes; a failing call may have
+    /// stored an arbitrary prefix too
+    pub unsafe fn read(fd: i32, buf: *mut core::ffi::c_void, count: usize) -> isize {
+        READ_CALLS += 1;
+        LAST = (fd, buf as usize, count);
+        let r: isize = kani::any();
+        kani::assume(r >= -1 && r <= count as isize);
+        let touched: usize = if r >= 0 { r as usize } else { kani::any() };
+        kani::assume(touched <= count);
+        let mut i = 0;
+        while i < touched { *(buf as *mut u8).add(i) = kani::any(); i += 1; }
+        LAST_RET = r;
+        r
+    }
+    /// O3b: same ErrorKind, no heap-allocated message
+    pub fn io_error_new(kind: std::io::ErrorKind, _msg: &str) -> std::io::Error { std::io::Error::from(kind) }
+    /// errno lives behind a foreign function (__errno_location)
+    pub fn last_os_error() -> std::io::Error { std::io::Error::from(std::io::ErrorKind::Other) }
+    pub unsafe fn write(fd: i32, buf: *const core::ffi::c_void, count: usize) -> isize {
+        WRITE_CALLS += 1;
+        LAST = (fd, buf as usize, count);
+        let r: isize = kani::any();
+        kani::assume(r >= -1 && r <= count as isize);
+        LAST_RET = r;
+        r
+    }
+}
+''',
+}
